@@ -49,7 +49,9 @@ apply(Function const &_function, Tuples &&..._tuples)
 
   return fcppt::tuple::init<fcppt::tuple::apply_result<Function, Tuples...>>(
       [&_function, &_tuples...]<std::size_t Index>(std::integral_constant<std::size_t, Index>) {
-        return _function(fcppt::tuple::get<Index>(fcppt::move_if_rvalue<Tuples>(_tuples))...);
+        // Move the elements, not the tuple: get() on an rvalue tuple binds to the
+        // const & overload and handed out const lvalues.
+        return _function(fcppt::move_if_rvalue<Tuples>(fcppt::tuple::get<Index>(_tuples))...);
       });
 }
 
